@@ -74,10 +74,21 @@ class UnitResult:
 def _run_verus(path: str, timeout: int, extra: List[str]) -> tuple:
     cmd = [VERUS, os.path.basename(path), "--output-json", "--time", "--multiple-errors", "8"] + extra + ["--", "--error-format=json"]
     t0 = time.time()
+    # own process group: on a timeout the solver processes that verus started are killed with it
+    proc = subprocess.Popen(cmd, cwd=os.path.dirname(path), stdout=subprocess.PIPE, stderr=subprocess.PIPE, text=True, start_new_session=True)
     try:
-        p = subprocess.run(cmd, cwd=os.path.dirname(path), capture_output=True, text=True, timeout=timeout)
+        so, se = proc.communicate(timeout=timeout)
     except subprocess.TimeoutExpired:
+        try:
+            os.killpg(proc.pid, 9)
+        except OSError:
+            pass
+        proc.communicate()
         return None, [], time.time() - t0, " ".join(cmd), "timeout"
+
+    class _P:
+        stdout, stderr = so, se
+    p = _P
     wall = time.time() - t0
     try:
         out = json.loads(p.stdout) if p.stdout.strip() else None
@@ -265,6 +276,9 @@ def _short(msg: str) -> str:
     return "obligation"
 
 
+CANARY_TIMEOUT_S = 240
+
+
 def _canary(res: UnitResult, b: extract.UnitBuilder, text: str, outdir: str, timeout: int, extra) -> dict:
     """twin files: `ensures false` on contracted functions; each must FAIL, otherwise the function's
     precondition is contradictory or no exit is reachable (vacuous success).  A callee with `ensures false`
@@ -300,7 +314,9 @@ def _canary(res: UnitResult, b: extract.UnitBuilder, text: str, outdir: str, tim
             twin = twin.replace(marker, ("false, // @CANARY" if _has_ensures(text, marker) else "ensures false, // @CANARY"), 1)
         path = os.path.join(outdir, f"{res.unit}_canary{gi}.rs")
         open(path, "w").write(twin)
-        r = _run_verus(path, timeout, extra)
+        # a twin asks the solver to prove `false`; when that is not provable the search is cut by the resource limit, but
+        # not every theory respects it, so the twin also gets a wall-clock limit of its own
+        r = _run_verus(path, min(timeout, CANARY_TIMEOUT_S), extra)
         try:
             os.remove(path)
         except OSError:
@@ -309,7 +325,14 @@ def _canary(res: UnitResult, b: extract.UnitBuilder, text: str, outdir: str, tim
     import concurrent.futures as cf
     with cf.ThreadPoolExecutor(max_workers=4) as ex:
         outs = list(ex.map(one, enumerate(groups)))
-    for (out, diags, wall, cmd, other) in outs:
+    inconclusive = []
+    for g, (out, diags, wall, cmd, other) in zip(groups, outs):
+        if other == "timeout" and out is None:
+            # nothing was proved within the limit -- in particular not `false`; the vacuity question stays open for these
+            # functions (listed in the evidence) and is not turned into a verdict on the unit
+            inconclusive += [f["qual"] for f in g]
+            hit.update(f["qual"] for f in g)
+            continue
         if out is None or "verification-results" not in out or out["verification-results"].get("encountered-vir-error"):
             problem = "canary twin did not run: " + (other or "")[-200:]
             continue
@@ -323,7 +346,9 @@ def _canary(res: UnitResult, b: extract.UnitBuilder, text: str, outdir: str, tim
                         if f:
                             hit.add(f["qual"])
     missing = [f["qual"] for f in want if f["qual"] not in hit]
-    r = {"functions": len(want), "failed_as_expected": len(hit), "twins": len(groups), "wall_s": round(time.time() - t0, 2)}
+    r = {"functions": len(want), "failed_as_expected": len(hit) - len(inconclusive), "twins": len(groups), "wall_s": round(time.time() - t0, 2)}
+    if inconclusive:
+        r["inconclusive_timeout"] = inconclusive
     if missing and not problem:
         problem = "`ensures false` verified for: " + ", ".join(missing)
     if problem:
